@@ -190,6 +190,15 @@ def thin_meshes(ndims):
                                                         [[[1, 0, 1], [1, 1, 3]], [[2, 0, 1], [4, 0, 1]], [[2, 0, 2], [4, 1, 3]]]]}]
 
 
+def far_index_meshes(ndims):
+    """box indices of six digits (relative tolerances of 1e-5 confuse neighbouring cells there)"""
+    if ndims == 2:
+        return [{"ndims": 2, "domain": [100004, 2], "levels": [[[[0, 0], [1, 1]], [[100000, 0], [100001, 1]], [[100002, 0], [100003, 1]]],
+                                                              [[[200000, 0], [200003, 3]], [[200004, 0], [200005, 1]]]]}]
+    return [{"ndims": 3, "domain": [100004, 2, 2], "levels": [[[[0, 0, 0], [1, 1, 1]], [[100000, 0, 0], [100001, 1, 1]], [[100002, 0, 0], [100003, 1, 1]]],
+                                                             [[[200000, 0, 0], [200003, 3, 3]], [[200004, 0, 0], [200005, 1, 1]]]]}]
+
+
 # a few fixed meshes used as irrelevant context (rotated by VERIF_SEED)
 def named_meshes(ndims):
     if ndims == 2:
